@@ -97,9 +97,9 @@ def envelope_problems(raw, request_frame=None, decodable=None,
                pv.get(TAG['PROTOCOL_VERSION_MINOR']))
         if rv is not None:
             if decodable and got != rv:
-                probs.append('response version %s for a request in version '
-                             '%s' % (got, rv))
+                probs.append('response version differs from the version of '
+                             'the (decodable) request')
             elif not decodable and got not in (rv, (1, 0)):
-                probs.append('response version %s for an undecodable '
-                             'request in version %s' % (got, rv))
+                probs.append('response version differs from the version of '
+                             'the undecodable request and is not 1.0')
     return probs
